@@ -112,6 +112,7 @@ bool ThreadPool::initialize(ssize_t min_thread_num, ssize_t max_thread_num)
 
     {
         std::lock_guard<std::mutex> lg(d_->lock);
+        d_->all_threads_stop_flag = false;  //! before any worker exists, and under the lock the workers read it with
         d_->min_thread_num = min_thread_num;
         d_->max_thread_num = max_thread_num;
 
@@ -120,7 +121,6 @@ bool ThreadPool::initialize(ssize_t min_thread_num, ssize_t max_thread_num)
                 return false;
     }
 
-    d_->all_threads_stop_flag = false;
     d_->is_ready = true;
 
     return true;
@@ -258,9 +258,11 @@ void ThreadPool::cleanup()
             }
         );
         d_->threads_cabinet.clear();
+
+        //! set under the lock: a worker between its wait-predicate check and the wait would otherwise miss the notify
+        d_->all_threads_stop_flag = true;
     }
 
-    d_->all_threads_stop_flag = true;
     d_->cond_var.notify_all();
 
     //! 等待所有的线程退出
